@@ -24,6 +24,12 @@ func vDumpBloom(bl *Bloom) string {
 func init() {
 	verifComponents["bloom"] = func(args []string) func(op []string) string {
 		bl := NewBloomFilter(float64(vu(args[0])), float64(vu(args[1])))
+		return verifBloomOps(bl)
+	}
+}
+
+func verifBloomOps(bl *Bloom) func(op []string) string {
+	{
 		return func(op []string) string {
 			switch op[0] {
 			case "add":
@@ -50,6 +56,17 @@ func init() {
 			}
 			return "badop"
 		}
+	}
+}
+
+func init() {
+	verifComponents["bloomfp"] = func(args []string) func(op []string) string {
+		// (entries, false-positive rate num/den) constructor; header also carries what the probe saw
+		bl := NewBloomFilter(float64(vu(args[0])), float64(vu(args[1]))/float64(vu(args[2])))
+		if bl.size+1 != vu(args[3]) || bl.setLocs != vu(args[4]) {
+			panic(fmt.Sprintf("fp constructor params differ from probe: %d %d", bl.size+1, bl.setLocs))
+		}
+		return verifBloomOps(bl)
 	}
 	verifComponents["getsize"] = func(args []string) func(op []string) string {
 		return func(op []string) string {
